@@ -29,11 +29,15 @@ DIRS = ["ppt", "slides", "slidesX", "a.b", "_rels", "UP"]
 LEAVES = ["slide1.xml", "slide21.xml", "a.b.c", "noext", "IMAGE7.PNG", "[x].xml", "slide.xml"]
 
 
-def names(depth):
+# further leaf names for the accessor table only (index 0, zero-padded and multi-digit indices, index without extension)
+IDX_LEAVES = ["image0.png", "slide01.xml", "chart007.xml", "slide10.xml", "slide100.xml", "noext5", "media00.mp4"]
+
+
+def names(depth, leaves=None):
     out = []
     for d in range(depth + 1):
         for combo in itertools.product(DIRS, repeat=d):
-            for leaf in LEAVES:
+            for leaf in leaves or LEAVES:
                 out.append("/" + "/".join(combo + (leaf,)))
     return out
 
@@ -176,7 +180,7 @@ def run_unit(unit, tier, seed, acc):
         acc.count("refs_into_subdirectory", stats["with_sub"])
         acc.classes["pair"] = acc.classes.get("pair", 0) + k
     elif kind == "accessors":
-        ns = names(unit["depth"]) + ["/"]
+        ns = names(unit["depth"], LEAVES + IDX_LEAVES) + ["/"]
         for P in ns:
             u = PackURI(P)
             exp = {
